@@ -93,7 +93,7 @@ func sigParts(c *Ctx, fn *ssa.Function) []sigPart {
 			if tv, ok := info.Types[kx]; ok && tv.Value != nil {
 				k = strings.Trim(tv.Value.ExactString(), `"`)
 			}
-			out = append(out, sigPart{k, exprSource(info, vx)})
+			out = append(out, sigPart{k, exprSource(info, vx, fd)})
 		}
 		return false
 	})
@@ -103,8 +103,8 @@ func sigParts(c *Ctx, fn *ssa.Function) []sigPart {
 
 // exprSource names the object an expression reads: the last selected field
 // ("opaqueState.ChallengeClient") or the variable, through conversions.
-func exprSource(info *types.Info, e ast.Expr) string {
-	for {
+func exprSource(info *types.Info, e ast.Expr, fd *ast.FuncDecl) string {
+	for depth := 0; depth < 6; depth++ {
 		switch x := e.(type) {
 		case *ast.ParenExpr:
 			e = x.X
@@ -129,7 +129,12 @@ func exprSource(info *types.Info, e ast.Expr) string {
 			return x.Sel.Name
 		case *ast.Ident:
 			if o := info.Uses[x]; o != nil {
-				if _, isParam := o.(*types.Var); isParam {
+				if v, isVar := o.(*types.Var); isVar {
+					// a local that is assigned exactly once (`cs := h.p.challengeServer`): what it was assigned
+					if rhs := singleAssignment(info, fd, v); rhs != nil {
+						e = rhs
+						continue
+					}
 					return "var " + x.Name
 				}
 			}
@@ -137,6 +142,67 @@ func exprSource(info *types.Info, e ast.Expr) string {
 		}
 		return "?"
 	}
+	return "?"
+}
+
+// singleAssignment: the right-hand side of the only assignment to the local variable v in fd (a `v := e` or
+// `var v = e` with nothing else ever assigning to v or taking its address); nil otherwise.
+func singleAssignment(info *types.Info, fd *ast.FuncDecl, v *types.Var) ast.Expr {
+	if fd == nil || fd.Body == nil {
+		return nil
+	}
+	var rhs ast.Expr
+	n := 0
+	bad := false
+	ast.Inspect(fd.Body, func(nd ast.Node) bool {
+		switch x := nd.(type) {
+		case *ast.AssignStmt:
+			for i, l := range x.Lhs {
+				id, ok := l.(*ast.Ident)
+				if !ok {
+					continue
+				}
+				if info.Defs[id] == v || info.Uses[id] == v {
+					n++
+					if len(x.Lhs) == len(x.Rhs) {
+						rhs = x.Rhs[i]
+					} else {
+						bad = true
+					}
+				}
+			}
+		case *ast.ValueSpec:
+			for i, id := range x.Names {
+				if info.Defs[id] == v {
+					n++
+					if i < len(x.Values) {
+						rhs = x.Values[i]
+					} else {
+						bad = true
+					}
+				}
+			}
+		case *ast.IncDecStmt:
+			if id, ok := x.X.(*ast.Ident); ok && info.Uses[id] == v {
+				bad = true
+			}
+		case *ast.UnaryExpr:
+			if id, ok := x.X.(*ast.Ident); ok && x.Op == token.AND && info.Uses[id] == v {
+				bad = true
+			}
+		case *ast.RangeStmt:
+			for _, l := range []ast.Expr{x.Key, x.Value} {
+				if id, ok := l.(*ast.Ident); ok && (info.Defs[id] == v || info.Uses[id] == v) {
+					bad = true
+				}
+			}
+		}
+		return true
+	})
+	if n != 1 || bad {
+		return nil
+	}
+	return rhs
 }
 
 func checkC19(c *Ctx, r *Report) {
@@ -203,7 +269,7 @@ func checkC19(c *Ctx, r *Report) {
 			}
 			// every success exit of this arm has stored the ID
 			for _, ret := range rets {
-				q := &Cut{Fn: run, Target: isInstr(ret), Sep: inSet(pidStores), Assume: as}
+				q := &Cut{Fn: run, Target: isInstr(ret), EdgeCut: failCut(ret), Sep: inSet(pidStores), Assume: as}
 				w, n := q.Run(c)
 				r1.Check(w == "", runK+": verify-challenge success passes the PeerID store", instrPos(ret), n+1, "", "", w)
 			}
@@ -326,7 +392,7 @@ func checkC19(c *Ctx, r *Report) {
 			r2.Fail(unmK+": one hmac.Equal and one json.Unmarshal", um.Pos(), "required sites missing", "")
 		}
 		for _, ret := range successReturns(um) {
-			w, n := (&Cut{Fn: um, Target: isInstr(ret), Sep: inSet(js)}).Run(c)
+			w, n := (&Cut{Fn: um, Target: isInstr(ret), EdgeCut: failCut(ret), Sep: inSet(js)}).Run(c)
 			r2.Check(w == "", unmK+": success only after parsing", instrPos(ret), n+1, "", "", w)
 		}
 	}
